@@ -53,7 +53,7 @@ pub(super) const MAX_LEN: usize = 12;
 /// sandbox, the attribute form (`kani::ensures` + `proof_for_contract`) of the same
 /// obligation took 247 s for 10 bytes over [a-z_G] (88 s with a loop-free harness
 /// and a `==`-based spec) and timed out at 300 s on this domain, against 2.6 s for
-/// the harness form — the cost is Kani's contract instrumentation, not the function.
+/// the harness form (same function, same postcondition; only the form differs).
 #[kani::proof]
 #[kani::unwind(14)]
 fn c16_prot_iff() {
